@@ -52,7 +52,14 @@ class C18(Check):
             'sphere, declination exactly +-90 and 1e-13..1 deg from a pole, both points on poles, RA seam (0.0 / 360.0 / '
             'within 1e-13..1 deg, pairs crossing it), coincident (bit-identical, 1-4 ulp apart, 0 vs 360, one pole with '
             'two RAs), antipodal (exact: dec2=-dec1, ra2=ra1+180 with dyadic RA; 1e-16..1e-3 deg short of it; pole to '
-            'pole), cardinal 15-degree grid.  Every batch is evaluated in all three unit conventions (hours = deg/15, '
+            'pole), cardinal 15-degree grid; integer-valued coordinates (whole hours 0..24 / degrees 0..360 / radians 0..6) '
+            'held as int8, uint8, int16, uint16, int32, uint32, int64, uint64 arrays, numpy scalars and Python ints, RAs '
+            'only or all four arguments typed, compared with the long-double reference and with the float64 call for the '
+            'same values and across the conventions; '
+            'broadcasting: each of the four arguments independently Python float / numpy scalar / 0-d array / length-1 / '
+            'length-n array in all 16 scalar-array patterns plus column-against-row, result shape = broadcast shape '
+            '(scalars in -> scalar out), every value = reference and = the scalar call of that pair.  '
+            'Every batch is evaluated in all three unit conventions (hours = deg/15, '
             'radians = numpy.radians(deg), each with its own reference on the re-quantised float64 inputs), in both '
             'argument orders, against itself, as 2-D array, as Python scalars and scalar-vs-array.  '
             'mu/nu: every stripe 0..90 (case i uses stripe i mod 91) through astropy transform_to in both directions: '
@@ -87,6 +94,9 @@ class C18(Check):
         'symmetry asserted to 1e-12 relative + floor (observed: bit-identical); identical points must give exactly 0',
         'range: 0 <= distance <= 180 deg * (1 + 1e-15) in the units of the convention',
         'stripes are Python ints; node is the frame default (95 deg); non-default node is outside the property',
+        'integer-typed gcirc input (int8..uint64 arrays and numpy scalars, Python ints; RAs only or all four typed) is '
+        'asserted in all three conventions against the long-double reference and the float64 call (finding F-G8, fixed: '
+        'before, numpy.deg2rad of 8/16-bit integers computed in float16/float32 and unsigned RA differences wrapped at units=0)',
         'unit vectors: float64 vectors whose norm is within 2 ulp of 1 (correctly rounded from long double, or '
         'numpy v/numpy.linalg.norm(v)); angle arrays: float64, int64, int32',
     ]
@@ -106,7 +116,13 @@ class C18(Check):
                                'flav_points_with_distance', 'flav_distance_lt_1', 'flav_distance_gt_1e3',
                                'flav_scalar_distance_objects', 'flav_dimensionless_distance_objects',
                                'flav_cartesian_unnormalised_points', 'flav_obstime_objects',
-                               'flav_source_unmodified_checks', 'flav_on_circle_points']
+                               'flav_source_unmodified_checks', 'flav_on_circle_points',
+                               'gci_asserted_calls', 'gci_asserted_pairs', 'gci_int8_hours_ge_9', 'gci_uint8_hours_ge_18',
+                               'gci_numpy_scalar_calls', 'gci_python_int_calls', 'gci_unit_convention_checks',
+                               'gci_units0_asserted_calls', 'gci_units1_asserted_calls', 'gci_units2_asserted_calls',
+                               'gcb_calls', 'gcb_pairs', 'gcb_all_scalar_calls', 'gcb_scalar_ra_array_dec_calls',
+                               'gcb_array_ra_scalar_dec_calls', 'gcb_outer_calls', 'gcb_python_float_args',
+                               'gcb_numpy_scalar_args', 'gcb_0d_array_args', 'gcb_length1_array_args', 'gcb_scalar_call_comparisons']
                               + ['gc_sep_decade_1e%+d' % d for d in DECADES])
     REQUIRED_REACH = {'astro.gcirc': 0.85, 'coord.stripe_to_eta': 1.0, 'coord.stripe_to_incl': 1.0,
                       'coord.radec_to_munu': 1.0, 'coord.munu_to_radec': 1.0,
@@ -161,6 +177,8 @@ class C18(Check):
             'vec_roundtrip': 90 if q else 3200,
             'vec_f64norm': 36 if q else 1600,
             'munu_flavours': 91 if q else 91 * 8,
+            'gcx_intdtype': 48 if q else 960,
+            'gcx_broadcast': 64 if q else 1600,
         }
 
     # ------------------------------------------------------------------ generators
@@ -174,6 +192,10 @@ class C18(Check):
 
     def gen(self, cls, rng, i):
         g = np_rng(rng)
+        if cls == 'gcx_intdtype':
+            return self._gen_gci(g, i)
+        if cls == 'gcx_broadcast':
+            return self._gen_gcb(g, i)
         if cls.startswith('gc_'):
             return self._gen_gc(cls, g, i)
         if cls == 'munu_stripes':
@@ -342,6 +364,36 @@ class C18(Check):
                      + g.choice([-1, 1], n) * 10.0 ** g.uniform(-12, -1, n), t)
         return {'kind': 'circle', 'stripe': stripe, 't': lst(t), 'mu_pole': lst(g.uniform(0, 360, 8))}
 
+    def _gen_gci(self, g, i):
+        n = 120
+        h1, h2 = g.integers(0, 25, n), g.integers(0, 25, n)
+        h1[:8] = [9, 21, 18, 24, 0, 8, 17, 23]                       # around the 8-bit limits of 15*h
+        h2[:8] = [10, 3, 23, 12, 24, 9, 18, 0]
+        d1, d2 = g.integers(-90, 91, n), g.integers(-90, 91, n)
+        d1[:4] = [90, -90, 0, 89]
+        k = g.random(n)
+        h2 = np.where(k < 0.1, h1, h2)
+        d2 = np.where(k < 0.05, d1, d2)
+        return {'kind': 'gci', 'h1': h1.tolist(), 'd1': d1.tolist(), 'h2': h2.tolist(), 'd2': d2.tolist(),
+                'r1': g.integers(0, 7, n).tolist(), 'e1': g.integers(-1, 2, n).tolist(),
+                'r2': g.integers(0, 7, n).tolist(), 'e2': g.integers(-1, 2, n).tolist()}
+
+    def _gen_gcb(self, g, i):
+        n = int(g.integers(2, 9))
+        ra1, dec1 = self._sphere(g, n)
+        sep = self._logsep(g, n)
+        ra2, dec2 = S.offset_point(ra1, dec1, sep, g.uniform(0, 2 * PI, n))
+        if i % 3 == 0:                                              # a meridian / a parallel: shared coordinate values
+            ra2 = np.full(n, ra1[0])
+            ra1 = np.full(n, ra1[0])
+        forms = []
+        for pat in range(16):
+            forms.append([int(g.choice([3, 4, 4, 4])) if pat >> k & 1 else int(g.choice([0, 1, 2])) for k in range(4)])
+        for f in forms:
+            if 4 not in f and 3 in f and g.random() < 0.5:
+                f[f.index(3)] = 4
+        return {'kind': 'gcb', 'ra1': lst(ra1), 'dec1': lst(dec1), 'ra2': lst(ra2), 'dec2': lst(dec2), 'forms': forms}
+
     def _gen_flav(self, g, i):
         stripe = i % 91
         incl = S.sdss_incl_deg(stripe)
@@ -446,6 +498,10 @@ class C18(Check):
 
     def run(self, case, out):
         kind = case['kind']
+        if kind == 'gci':
+            return self._run_gci(case, out)
+        if kind == 'gcb':
+            return self._run_gcb(case, out)
         if kind == 'gcirc':
             return self._run_gc(case, out)
         if kind == 'munu':
@@ -586,6 +642,184 @@ class C18(Check):
         out.count('gc_sep_below_1e-12', int(((ref > 0) & (dec < -12)).sum()))
         out.nontrivial = bool((ref > 0).any())
         out.info.update(pairs=n, min_sep_rad=float(ref[ref > 0].min()) if (ref > 0).any() else 0.0, max_sep_rad=float(ref.max()))
+
+    # ------------------------------------------------------------------ gcirc: integer dtypes
+    INT_DTYPES = ('int8', 'uint8', 'int16', 'uint16', 'int32', 'uint32', 'int64', 'uint64')
+
+    @staticmethod
+    def _int_asserted(un, dt, pattern):
+        """Every integer dtype is asserted in every convention since finding F-G8 was repaired (gcirc promotes
+        integer input to float64); kept as a hook should a combination ever have to be reported instead."""
+        return True
+
+    def _run_gci(self, case, out):
+        gcirc = self.A.gcirc
+        worst = {}
+        sets = {1: ('h1', 'd1', 'h2', 'd2', 'hour', 'deg'), 2: ('h1', 'd1', 'h2', 'd2', 'deg', 'deg'), 0: ('r1', 'e1', 'r2', 'e2', 'rad', 'rad')}
+        results = {}
+        for un in (1, 2, 0):
+            k1, k2, k3, k4, lu, bu = sets[un]
+            a1, b1, a2, b2 = (np.asarray(case[k], dtype=np.int64) for k in (k1, k2, k3, k4))
+            if un == 2:
+                a1, a2 = 15 * a1, 15 * a2                      # the same points as the hours set, in whole degrees
+            n = a1.size
+            f = [x.astype(np.float64) for x in (a1, b1, a2, b2)]
+            ref = S.sep(S.to_rad(f[0], lu), S.to_rad(f[1], bu), S.to_rad(f[2], lu), S.to_rad(f[3], bu))
+            tol = REL * ref + FLOOR
+            torad = (lambda x: np.asarray(x, dtype=np.float64).astype(LD)) if un == 0 else \
+                    (lambda x: np.asarray(x, dtype=np.float64).astype(LD) / 3600 * S.D2R)
+            gf = torad(gcirc(f[0], f[1], f[2], f[3], units=un))       # the float64 answer for the same values
+            results[un] = {'float64': gf}
+            self._all(out, np.abs(gf - ref) <= tol, 'vector-formula', 'units=%d, float64 whole numbers: differs from the reference' % un,
+                      ra1=f[0], dec1=f[1], ra2=f[2], dec2=f[3])
+            for dt in self.INT_DTYPES:
+                info = np.iinfo(dt)
+                fits = (a1 >= info.min) & (a1 <= info.max) & (a2 >= info.min) & (a2 <= info.max) \
+                    & (b1 >= info.min) & (b1 <= info.max) & (b2 >= info.min) & (b2 <= info.max)
+                idx = np.flatnonzero(fits)
+                if idx.size == 0:
+                    continue
+                for pattern in ('ra', 'all'):
+                    ta = [a1[idx].astype(dt), b1[idx].astype(dt if pattern == 'all' else np.float64),
+                          a2[idx].astype(dt), b2[idx].astype(dt if pattern == 'all' else np.float64)]
+                    asserted = self._int_asserted(un, dt, pattern)
+                    tag = 'units=%d, %s, %s' % (un, dt, 'RAs typed' if pattern == 'ra' else 'all four typed')
+                    before = [x.copy() for x in ta]
+                    r = gcirc(ta[0], ta[1], ta[2], ta[3], units=un)
+                    if asserted:
+                        out.count('gci_asserted_calls')
+                        out.count('gci_units%d_asserted_calls' % un)
+                        out.count('gci_asserted_pairs', int(idx.size))
+                        if un == 1 and dt == 'int8':
+                            out.count('gci_int8_hours_ge_9', int(((a1[idx] >= 9) | (a2[idx] >= 9)).sum()))
+                        if un == 1 and dt == 'uint8':
+                            out.count('gci_uint8_hours_ge_18', int(((a1[idx] >= 18) | (a2[idx] >= 18)).sum()))
+                        if out.expect(getattr(r, 'shape', None) == (idx.size,), 'shape', '%s: result shape %r' % (tag, getattr(r, 'shape', None))):
+                            g = torad(r)
+                            wit = dict(ra1=a1[idx], dec1=b1[idx], ra2=a2[idx], dec2=b2[idx])
+                            fin = np.isfinite(np.asarray(r, dtype=np.float64))
+                            self._all(out, fin, 'never-nan', '%s: distance is not finite' % tag, **wit)
+                            e = np.abs(g - ref[idx])
+                            self._all(out, ~fin | (e <= tol[idx]), 'vector-formula', '%s: differs from the long-double reference for the same whole numbers' % tag,
+                                      ratio=e / tol[idx], got_rad=g.astype(np.float64), ref_rad=ref[idx].astype(np.float64), **wit)
+                            e = np.abs(g - gf[idx])
+                            self._all(out, ~fin | (e <= 1e-12 * ref[idx] + FLOOR), 'integer-dtype', '%s: differs from the float64 call with the same values' % tag,
+                                      got_rad=g.astype(np.float64), float64_rad=gf[idx].astype(np.float64), **wit)
+                            if pattern == 'ra':
+                                results[un][dt] = (idx, g)
+                        self._all(out, np.array([bool((x == y).all()) and x.dtype == y.dtype for x, y in zip(ta, before)]), 'inputs-unmodified',
+                                  '%s: gcirc changed its input arrays' % tag)
+                        # numpy scalars of the same dtype
+                        for j in range(min(6, idx.size)):
+                            sc = [t[j] for t in ta]
+                            rs = gcirc(sc[0], sc[1], sc[2], sc[3], units=un)
+                            out.count('gci_numpy_scalar_calls')
+                            ok = np.ndim(rs) == 0 and bool(np.isfinite(rs)) and bool(np.abs(torad(rs) - ref[idx[j]]) <= tol[idx[j]])
+                            out.expect(ok, 'vector-formula', '%s, numpy scalars: returned %r, reference %.17g rad' % (tag, rs, float(ref[idx[j]])),
+                                       ra1=int(sc[0]), dec1=float(sc[1]), ra2=int(sc[2]), dec2=float(sc[3]))
+                    else:
+                        out.count('gci_not_asserted_calls')
+                        with np.errstate(all='ignore'):
+                            dev = np.abs(np.asarray(torad(r), dtype=np.float64).reshape(-1) - gf[idx].astype(np.float64))
+                        dev = dev[np.isfinite(dev)]
+                        key = 'units=%d %s %s' % (un, dt, pattern)
+                        worst[key] = float(dev.max()) if dev.size else float('inf')
+                        if not dev.size or dev.max() > 1e-9:
+                            out.count('gci_not_asserted_imprecise_calls')
+            # Python ints
+            for j in range(min(8, n)):
+                rs = gcirc(int(a1[j]), int(b1[j]), int(a2[j]), int(b2[j]), units=un)
+                out.count('gci_python_int_calls')
+                ok = np.ndim(rs) == 0 and bool(np.isfinite(rs)) and bool(np.abs(torad(rs) - ref[j]) <= tol[j])
+                out.expect(ok, 'vector-formula', 'units=%d, Python ints: returned %r, reference %.17g rad' % (un, rs, float(ref[j])),
+                           ra1=int(a1[j]), dec1=int(b1[j]), ra2=int(a2[j]), dec2=int(b2[j]))
+        # the conventions agree on the same points: hours (any integer dtype) vs whole degrees vs float radians
+        hd = [np.asarray(case[k], dtype=np.float64) for k in ('h1', 'd1', 'h2', 'd2')]
+        g0 = np.asarray(gcirc(np.radians(15.0 * hd[0]), np.radians(hd[1]), np.radians(15.0 * hd[2]), np.radians(hd[3]), units=0), dtype=np.float64).astype(LD)
+        ref1 = S.sep(S.to_rad(hd[0], 'hour'), S.to_rad(hd[1], 'deg'), S.to_rad(hd[2], 'hour'), S.to_rad(hd[3], 'deg'))
+        for dt, val in results[1].items():
+            idx, g1 = (np.arange(ref1.size), val) if dt == 'float64' else val
+            for other, (label, go) in (('deg', ('units=2 float64', results[2]['float64'])), ('deg32', ('units=2 int32', results[2].get('int32', (None, None))[1])),
+                                       ('rad', ('units=0 float64 radians', g0))):
+                if go is None:
+                    continue
+                go = go[idx] if go.shape[0] != idx.size else go
+                ok = np.abs(g1 - go) <= 2 * REL * ref1[idx] + 2 * FLOOR + 1e-14
+                self._all(out, ok, 'unit-conventions', 'units=1 with %s hours disagrees with %s on the same points' % (dt, label),
+                          hours_rad=g1.astype(np.float64), other_rad=go.astype(np.float64),
+                          ra1_h=hd[0][idx], dec1=hd[1][idx], ra2_h=hd[2][idx], dec2=hd[3][idx])
+                out.count('gci_unit_convention_checks', int(idx.size))
+        out.nontrivial = True
+        out.info.update(not_asserted_max_deviation_rad=worst)
+
+    # ------------------------------------------------------------------ gcirc: broadcasting
+    @staticmethod
+    def _form(v, code):
+        if code == 0:
+            return float(v[0])
+        if code == 1:
+            return np.float64(v[0])
+        if code == 2:
+            return np.array(v[0])
+        if code == 3:
+            return v[:1].copy()
+        if code == 5:
+            return v.reshape(-1, 1).copy()
+        return v.copy()
+
+    def _run_gcb(self, case, out):
+        gcirc = self.A.gcirc
+        deg = [f64(case[k]) for k in ('ra1', 'dec1', 'ra2', 'dec2')]
+        n = deg[0].size
+        inputs = {2: deg, 1: [deg[0] / 15.0, deg[1], deg[2] / 15.0, deg[3]], 0: [np.radians(x) for x in deg]}
+        units = {2: ('deg', 'deg'), 1: ('hour', 'deg'), 0: ('rad', 'rad')}
+        forms = [list(f) for f in case['forms']] + [[5, 5, 4, 4], [4, 4, 5, 5]]      # + column against row: all pairs
+        kinds = {0: 'gcb_python_float_args', 1: 'gcb_numpy_scalar_args', 2: 'gcb_0d_array_args', 3: 'gcb_length1_array_args'}
+        for un in (2, 1, 0):
+            vals = inputs[un]
+            lu, bu = units[un]
+            torad = (lambda x: np.asarray(x, dtype=np.float64).astype(LD)) if un == 0 else \
+                    (lambda x: np.asarray(x, dtype=np.float64).astype(LD) / 3600 * S.D2R)
+            for fi, f in enumerate(forms):
+                args = [self._form(v, c) for v, c in zip(vals, f)]
+                for c in f:
+                    if c in kinds:
+                        out.count(kinds[c])
+                bc = np.broadcast_arrays(*[np.asarray(a, dtype=np.float64) for a in args])
+                shape = bc[0].shape
+                ref = S.sep(S.to_rad(bc[0], lu), S.to_rad(bc[1], bu), S.to_rad(bc[2], lu), S.to_rad(bc[3], bu))
+                tag = 'units=%d, argument forms %r (0 float, 1 numpy scalar, 2 0-d array, 3 length-1, 4 length-n, 5 column)' % (un, f)
+                r = gcirc(args[0], args[1], args[2], args[3], units=un)
+                out.count('gcb_calls')
+                out.count('gcb_pairs', int(np.prod(shape, dtype=int)))
+                sc = [c <= 2 for c in f]
+                if all(sc):
+                    out.count('gcb_all_scalar_calls')
+                if sc[0] and sc[2] and not (sc[1] and sc[3]):
+                    out.count('gcb_scalar_ra_array_dec_calls')
+                if sc[1] and sc[3] and not (sc[0] and sc[2]):
+                    out.count('gcb_array_ra_scalar_dec_calls')
+                if 5 in f:
+                    out.count('gcb_outer_calls')
+                wit = dict(forms=f, ra1=np.ravel(args[0]), dec1=np.ravel(args[1]), ra2=np.ravel(args[2]), dec2=np.ravel(args[3]))
+                if not out.expect(np.shape(r) == shape, 'shape', '%s: result shape %r, the arguments broadcast to %r' % (tag, np.shape(r), shape), **wit):
+                    continue
+                g = torad(r)
+                e = np.abs(g - ref)
+                self._all(out, np.reshape(np.isfinite(np.asarray(r, dtype=np.float64)) & (e <= REL * ref + FLOOR), -1), 'vector-formula',
+                          '%s: a value differs from the reference of its pair' % tag,
+                          ratio=np.reshape(e / (REL * ref + FLOOR), -1), got_rad=np.reshape(g.astype(np.float64), -1), ref_rad=np.reshape(ref.astype(np.float64), -1),
+                          ra1=bc[0].reshape(-1), dec1=bc[1].reshape(-1), ra2=bc[2].reshape(-1), dec2=bc[3].reshape(-1))
+                # ... and equals the scalar call of that pair
+                flat = [b.reshape(-1) for b in bc]
+                gflat = np.reshape(g, -1)
+                for j in sorted({0, flat[0].size - 1, flat[0].size // 2}):
+                    rs = gcirc(float(flat[0][j]), float(flat[1][j]), float(flat[2][j]), float(flat[3][j]), units=un)
+                    out.count('gcb_scalar_call_comparisons')
+                    out.expect(np.ndim(rs) == 0 and bool(np.abs(torad(rs) - gflat[j]) <= 1e-12 * np.reshape(ref, -1)[j] + FLOOR), 'broadcast-pairs',
+                               '%s: element %d is %r but the scalar call for that pair gives %r' % (tag, j, float(np.reshape(np.asarray(r, dtype=np.float64), -1)[j]), rs), **wit)
+        out.nontrivial = True
+        out.info.update(n=n)
 
     # ------------------------------------------------------------------ mu / nu
     def _stripe_definition(self, stripe, out):
